@@ -70,5 +70,36 @@ _p('C14',
    'first (hook objects are shared by the steps of a block); _recomputed is written at both ends of the step and read with the same literal; consumed type literals '
    'are produced; every eval_f of a class with a registered rhs counter ticks it exactly once on every path (CFG must-pass-through and at-most-once).',
    ['behaviour of filter_stats(recomputed=...) on arbitrary histories'])
-for pid in ['C08', 'C16', 'C18', 'C19', 'C20']:
-    _p(pid, 'static rules over the AST/CFG of /repo (see DESIGN.md section 4 for the clause list)', ['behavioural remainder, see DESIGN.md'])
+_p('C08',
+   'Source-only rules (mpi4py is absent, nothing can run): every collective call site (and self.helper() containing one) has a guard set free of rank-dependent atoms '
+   '(.rank, status.slot/first/last/prev_done/done/restart, prev/next) apart from tabled exceptions; no collective on the time communicator is reachable from the '
+   'convergence-controller entry points called inside `while not done` except the synchronising all_to_done reduction; each send site has a receive site with mirrored '
+   'guard (not last <-> not first and not prev_done), mirrored peer, identical tag and buffer shape; in send_full the wait on the previous request precedes the '
+   'recomputation of uend which precedes isend; the DONE arm waits/cancels all requests; serial and MPI siblings agree on stage graph, callbacks, swept levels, dispatch '
+   'names and comparison operators.',
+   ['deadlock freedom and equality of results under all interleavings (schedule exploration is another family)', 'completion timing of non-blocking operations'])
+_p('C16',
+   'All open() calls of fieldsIO use rb/ab/w+b, the single truncating open is in FieldsIO.initialize and is dominated by the ALLOW_OVERWRITE/isfile test that raises; '
+   'addField appends time then field after asserting dtype and size; header dtype sequences and counts written by hInfos equal those read by readHeader for every '
+   'registered structure; records are read with T_DTYPE x1 and self.dtype x nItems; nFields is a floor division by the record size and every record read is preceded by '
+   'formatIndex (0 <= idx < nFields) or loops over range(nFields).',
+   ['bit exactness of numpy file I/O', 'the crash-point quantifier (needs fault injection)', 'BlockDecomposition tiles the grid (integer arithmetic identity)'])
+_p('C18',
+   'In the periodic arm of get_finite_difference_matrix every diagonal is coeff[p]*eye(k=steps[p] (+-size)) with p ranging over positions; no loop variable bound by '
+   '`for v in X` is used as subscript of X anywhere in the helper (positive control embedded); the two wrap diagonals have the right sign; coeff is permuted with '
+   'argsort(steps) before steps is sorted; the Kronecker sum for dimension d has d terms with A_1d in d distinct tensor positions and identities of total size size**(d-1); '
+   'library callers pass the geometric arguments by keyword.',
+   ['the stencil weights (Taylor system solve) and boundary closures', 'exactness degrees'])
+_p('C19',
+   'run() clears the statistics of every hook before restart_block and the first callback; restart_block unconditionally assigns done, prev_done, iter, stage, force_done, '
+   'first, last, slot, time_size, calls reset_step before init_step and resets the convergence controllers; reset_level rebinds every data slot declared in Level.__init__ '
+   '(three tabled exceptions) and renews the level status; every write to a class attribute or module global from a method is an entry of table B5 with a reason; no '
+   'global RNG draw in run-time modules; per-instance generators must be re-seeded (F6); steps are dill copies or fresh constructions.',
+   ['bit identity of repeated runs', 'interaction of arbitrarily configured controllers'])
+_p('C20',
+   'Dispatch chains over configuration names end in raise/super (four tabled non-configuration chains); the thirteen construction guards of Step, Sweeper, CollBase, '
+   'controller_nonMPI and ParaDiagController raise the stated error class under guards whose negation normal form mentions the stated quantities; all frozen classes '
+   'freeze on every normal exit and FrozenClass.__setattr__ raises before storing; __dict__ stores only at the sanctioned sites; RegisterParams rejects read-only names; '
+   '__dict_to_list distributes with min(level, len-1); convergence controllers are instantiated once, argsorted by control_order and iterated in that order; in every '
+   'setup() the user-carrying part comes last (fold along the MRO).',
+   ['the behaviour of every description generated from the grammar (generation = testing)'])
